@@ -40,7 +40,8 @@ RULE = ("records of length 360 with six genes on a 60-base raster, built with th
         "or not), M (no areas, generic features, fungal taxon, other seeds), T (hand-made layouts off the raster), "
         "P (prepeptides with/without leader and tail in a second region and in a region over the origin), O (origin-"
         "spanning multi-exon genes x origin-spanning regions cutting them at four places), N (locus tags of 47/52/68 "
-        "characters x every decoration); decorations include E-value/score/mass 0.0 variants; "
+        "characters x every decoration), K (length 720, twelve genes, 11-13 areas: multi-member candidates, regions and "
+        "subregion pairs numbered 8+9 / 9+10 / 10+11); decorations include E-value/score/mass 0.0 variants; "
         "analysis annotations only on genes inside a region, as in the pipeline; thorough adds wider anchor "
         "ranges, all layouts for pairs/triples and seeded random records off the raster. "
         "Non-trivial = record has >= 1 region and >= 3 feature classes; distinct = distinct spec.")
